@@ -17,6 +17,8 @@ use tracing::{
 pub struct CaptureSubscriber {
     buf: Arc<Mutex<Vec<String>>>,
     next_id: AtomicU64,
+    /// UVH_TRACE=1: every tracing event of the library is recorded (debugging a replay)
+    verbose: bool,
 }
 
 impl CaptureSubscriber {
@@ -24,6 +26,7 @@ impl CaptureSubscriber {
         CaptureSubscriber {
             buf: Arc::new(Mutex::new(Vec::new())),
             next_id: AtomicU64::new(1),
+            verbose: std::env::var_os("UVH_TRACE").is_some(),
         }
     }
     pub fn buffer(&self) -> Arc<Mutex<Vec<String>>> {
@@ -45,7 +48,7 @@ impl Visit for V<'_> {
 
 impl Subscriber for CaptureSubscriber {
     fn enabled(&self, metadata: &Metadata<'_>) -> bool {
-        *metadata.level() <= Level::WARN
+        *metadata.level() <= Level::WARN || self.verbose
     }
     fn new_span(&self, _span: &span::Attributes<'_>) -> span::Id {
         span::Id::from_u64(self.next_id.fetch_add(1, Ordering::Relaxed))
